@@ -54,6 +54,21 @@ static matrix *testset(const dcfg *c, matrix *X) {
 }
 
 /* ------------------------------------------------------------------ long-double reference */
+/* Gauss-Jordan inverse with partial pivoting on the augmented matrix [A|I] (local: engine rm_inv/rm_solve mishandles
+ * a row exchange after the first elimination step, see notes/C08.md) */
+static int ld_inv(const rmat *a, rmat *out) {
+  int n = a->r; ld M[PMAX][2 * PMAX];
+  for (int i = 0; i < n; i++) for (int j = 0; j < n; j++) { M[i][j] = RM(a, i, j); M[i][n + j] = i == j; }
+  for (int k = 0; k < n; k++) {
+    int piv = k; for (int i = k + 1; i < n; i++) if (fabsl(M[i][k]) > fabsl(M[piv][k])) piv = i;
+    if (M[piv][k] == 0) return 0;
+    if (piv != k) for (int j = 0; j < 2 * n; j++) { ld t = M[k][j]; M[k][j] = M[piv][j]; M[piv][j] = t; }
+    ld d = M[k][k]; for (int j = 0; j < 2 * n; j++) M[k][j] /= d;
+    for (int i = 0; i < n; i++) if (i != k) { ld f = M[i][k]; if (f != 0) for (int j = 0; j < 2 * n; j++) M[i][j] -= f * M[k][j]; }
+  }
+  for (int i = 0; i < n; i++) for (int j = 0; j < n; j++) RM(out, i, j) = M[i][n + j];
+  return 1;
+}
 typedef struct { rmat *mu, *W, *T, *Wi, *Ti; ld prior[KMAX]; ld kW, kT; int ok; } ref_t;
 static void ref_build(const dcfg *c, const matrix *X, const int *cls, ref_t *r) {
   int p = c->p, n = c->n, K = c->K; int cnt[KMAX] = {0};
@@ -66,7 +81,7 @@ static void ref_build(const dcfg *c, const matrix *X, const int *cls, ref_t *r) 
     RM(r->W, a, b) += (X->data[i][a] - RM(r->mu, cls[i], a)) * (X->data[i][b] - RM(r->mu, cls[i], b)) / (n - K);
     RM(r->T, a, b) += (X->data[i][a] - g[a]) * (X->data[i][b] - g[b]) / n;
   }
-  r->ok = rm_inv(r->W, r->Wi) && rm_inv(r->T, r->Ti);
+  r->ok = ld_inv(r->W, r->Wi) && ld_inv(r->T, r->Ti);
   r->kW = r->ok ? rm_cond2(r->W) : INFINITY; r->kT = r->ok ? rm_cond2(r->T) : INFINITY;
 }
 static void ref_free(ref_t *r) { rm_free(r->mu); rm_free(r->W); rm_free(r->T); rm_free(r->Wi); rm_free(r->Ti); }
@@ -226,6 +241,7 @@ static void judge_separation(const dcfg *c, matrix *X, const int *cls, const ref
   int errs = 0, first = -1;
   for (int i = 0; i < c->n; i++) if (o->pred->data[i][0] != (double)(c->base + cls[i])) { errs++; if (first < 0) first = i; }
   stat_line(mW >= 20 ? (mT < 1e-6 ? "sep-judged-Trule-errs" : "sep-judged-Trule-ok") : "sep-not-judged", (double)mW, errs);
+  if (mW >= 20 && mT < 1e-6 && errs == 0 && getenv("C08_STATS")) { char b[200]; snprintf(b, sizeof b, "ODD-K%d-p%d-sz%d-l%d-s%d-mT%.3Lg-eT%d", c->K, c->p, c->sz, c->layout, c->sep, mT, eT); stat_line(b, 0, 0); }
   if (!(mW >= 20)) return;                      /* not "well separated": nothing is demanded */
   char key[160], cl[80] = "";
   if (c->base) strcat(cl, "labels=1-based");
@@ -254,7 +270,8 @@ static void judge_same(const dcfg *c, const pr_t *a, const pr_t *b, double allow
   vx_check(okd, key, "K=%d p=%d n=%d: a discriminant-score difference changes (object %d class %d, worst change/allowance %.3g, allowance %.3g)", c->K, c->p, c->n, bi, bk, wr, allow);
   snprintf(key, sizeof key, "%s-label|%s|%s", what, fn, bname(c->base));
   vx_check(okl, key, "K=%d p=%d n=%d: a prediction with a clear score gap changes", c->K, c->p, c->n);
-  vx_log("%s: worst change/allowance %.3g (allowance %.3g)\n", what, wr, allow); stat_line(what, wr, allow);
+  double dmax = 0; for (int i = 0; i < nt; i++) for (int k = 1; k < c->K; k++) dmax = fmax(dmax, fabs(a->prob->data[i][k] - a->prob->data[i][0]));
+  vx_log("%s: worst change/allowance %.3g (allowance %.3g, largest score difference %.3g)\n", what, wr, allow, dmax); stat_line(what, wr, allow / dmax);
 }
 
 static void choose_data(dcfg *c) {
